@@ -63,6 +63,15 @@ def check_vector(P, vec, variants=False, tag=None, channels=False):
             if not same:
                 P.violation("attr-vs-scores", "C01:attribute-differs:" + slot, {"vector": vec},
                             observed=repr(a), scores=repr(got))
+    if channels or P.evaluations % 7 == 3:
+        # the same scores from the object obtained another way (a copy, a pickle round trip, from_rh_vector, the extractor)
+        how = obs.BUILT[(P.evaluations // 7) % len(obs.BUILT)]
+        ok2, o2 = obs.call(obs.build, L, "3", vec, how)
+        if ok2 and o2 is not None:
+            P.ev("scores-of-object-obtained-otherwise")
+            ok2, sc2 = obs.call(o2.scores)
+            if not ok2 or sc2 != got:
+                P.violation("score-channels", "C01:scores-differ-for-the-object-obtained-by:" + how, {"vector": vec}, constructor=repr(got), other=repr(sc2))
     if channels or P.evaluations % 5 == 0 or (any(k in m for k in T.GROUPS["3"]["temporal"]) != any(k in m for k in T.GROUPS["3"]["environmental"])):
         obs.check_score_channels(P, "C01", o, vec, got)
     if variants and not bad:
